@@ -248,7 +248,8 @@ class Cli:
                 name, value = item.split("=", 1)
                 self.model_generator_kwargs[name] = value
 
-        self.dict_keys_regex = [re.compile(rf"^(?:{r})$") for r in dict_keys_regex] if dict_keys_regex else ()
+        # \Z, not $: `$` also matches just before a trailing newline, so the key "id_1\n" would pass for `id_\d+`
+        self.dict_keys_regex = [re.compile(rf"^(?:{r})\Z") for r in dict_keys_regex] if dict_keys_regex else ()
         self.dict_keys_fields = dict_keys_fields or ()
         if preamble:
             preamble = preamble.strip()
